@@ -101,6 +101,14 @@ Rec(p) == /\ pc[p] = "rec"
 Next == \E p \in Procs : H2Panic(p) \/ Rec(p) \/ Lookup(p) \/ RenderOnce(p) \/ RenderCheck(p) \/ RenderSet(p) \/ Ctx(p) \/ H1(p) \/ H2(p)
 Spec == Init /\ [][Next]_vars
 
+\* liveness: with each request scheduled fairly, every request is answered whatever the others do - the once guard, the
+\* shared slices and the injector never make one request wait for another
+Step(p) == H2Panic(p) \/ Rec(p) \/ Lookup(p) \/ RenderOnce(p) \/ RenderCheck(p) \/ RenderSet(p) \/ Ctx(p) \/ H1(p) \/ H2(p)
+FairSpec == Spec /\ \A p \in Procs : WF_vars(Step(p))
+EveryRequestAnswered == \A p \in Procs : <>(pc[p] = "done")
+\* wait-freedom in the small: a request that can take a step can take it without any other request moving first
+NoWaiting == \A p \in Procs : pc[p] # "done" => ENABLED Step(p)
+
 SerialEquivalence == \A p \in Procs : pc[p] = "done" => out[p] = Serial(req[p])
 Isolation == \A p \in Procs : scope[p] \subseteq {p}
 \* no two requests write the same shared cell without synchronisation (the race detector's view)
